@@ -2534,6 +2534,15 @@ def fixed_witnesses():
       {"kind": "LinearConstraints", "tag": "D18", "units": 1, "wseed": 6, "n": 3,
        "kw": {"monotonicities": [1, 1, 0], "range_dominances": [T(0, 1)], "input_min": [0.0, 0.0, 5.0],
               "input_max": [1.0, 2.0, 5.0]}},
+      {"kind": "Linear", "tag": "D59", "wseed": 15, "n": 3,
+       "kw": {"num_input_dims": 3, "units": 1, "monotonicities": [1, 1, 1],
+              "monotonic_dominances": [T(0, 1), T(1, 2), T(2, 0)]}},
+      {"kind": "Lattice", "tag": "D60", "wseed": 16, "kw": {"lattice_sizes": []}},
+      {"kind": "LatticeConstraints", "tag": "D61", "units": 1, "wseed": 17,
+       "kw": {"lattice_sizes": [3], "joint_unimodalities": [T([0], "Valley")], "num_projection_iterations": 8},
+       "syn": {"lattice_sizes": [3], "joint_unimodalities": [T([0], "valley")], "num_projection_iterations": 8}},
+      {"kind": "PWLCalibration", "tag": "D62", "wseed": 18,
+       "kw": {"input_keypoints": [0.0, 1.0, 2.0], "units": 1, "input_keypoints_type": None}},
       {"kind": "PWLCalibration", "tag": "D44", "wseed": 14,
        "kw": {"input_keypoints": [0.0, 1.0, 2.0], "units": 1, "monotonicity": 0, "convexity": "None",
               "input_keypoints_type": "learned_interior"},
@@ -2885,6 +2894,18 @@ def _p23(kind, kw, stage, exc, msg, desc):
   dup = any(isinstance(c, (list, tuple)) and len(c) == 2 and isinstance(c[0], (list, tuple)) and
             len(set(c[0])) != len(c[0]) for c in ju)
   return kind in _LATTICE and exc == "TypeError" and "not all arguments converted" in msg and dup
+
+
+@pattern("linear_dominance_cycle")
+def _p25(kind, kw, stage, exc, msg, desc):
+  n = len(kw.get("monotonic_dominances") or []) + len(kw.get("range_dominances") or [])
+  return kind == "Linear" and stage == "project" and exc == "ValueError" and "Circular monotonicity" in msg and n >= 3
+
+
+@pattern("empty_lattice_sizes")
+def _p26(kind, kw, stage, exc, msg, desc):
+  ls = kw.get("lattice_sizes")
+  return kind == "Lattice" and isinstance(ls, (list, tuple)) and len(ls) == 0 and exc == "ZeroDivisionError"
 
 
 @pattern("bare_string_regularizer")
